@@ -388,10 +388,19 @@ fn layout_entries(k: &KeySpec, b: Node, wt: Node, ws: Node) -> Vec<(String, Node
 }
 
 pub fn run(args: Args) {
+    if args.extra.contains_key("prebuild") {
+        match ensure_variants() {
+            Ok(_) => return,
+            Err(e) => {
+                eprintln!("c18 --prebuild: {e}");
+                std::process::exit(3);
+            }
+        }
+    }
     quiet_panics();
     let shard = args.num("shard", 0);
     let nshards = args.num("nshards", 1).max(1);
-    let scratch = PathBuf::from(format!("/tmp/c18-{}-{}", std::process::id(), shard));
+    let scratch = small_util::scratch_base().join(format!("c18-{}-{}", std::process::id(), shard));
     let _ = fs::remove_dir_all(&scratch);
     let mut ctx = Ctx::new(scratch.clone());
     let mut out = Out::create(&args.out, &format!("c18-w{}i{}-s{}-", ctx.feat_wat as u8, ctx.feat_wit as u8, shard));
@@ -425,8 +434,11 @@ pub fn run(args: Args) {
     };
 
     // 1. single key, exhaustive layouts
+    // quick: three version shapes (none, release, pre-release+build); thorough: all six
+    let version_shapes: Vec<Option<&'static str>> =
+        if args.thorough() { versions() } else { vec![None, Some("1.2.3"), Some("0.3.0-alpha.1+b7")] };
     for name in names() {
-        for ver in versions() {
+        for ver in version_shapes.clone() {
             let key = KeySpec { name: name.into(), version: ver.map(|s| s.to_string()) };
             for (olabel, ovs, oentries) in override_kinds(name) {
                 // the full layout product without an override; a representative subset with one
@@ -526,69 +538,74 @@ pub fn run(args: Args) {
     }
 }
 
-/// Build (cargo, offline, below the runner's target directory) a copy of this harness linked
-/// against wac-resolver with the given features, run it over the full single-shard enumeration
-/// and append its case lines to our output file.
+#[path = "small_util.rs"]
+mod small_util;
+
+const VARIANTS: [(bool, bool); 3] = [(false, true), (false, false), (true, false)];
+
+/// The three other feature sets of wac-resolver: a generated workspace `$WACV_TARGET/c18x-ws`
+/// of three packages that `#[path]`-include this core.  Built by `--prebuild 1`; a normal run
+/// only checks the source stamp (and rebuilds under a file lock when it is stale).
+pub fn ensure_variants() -> Result<Option<PathBuf>, String> {
+    let Some(env) = small_util::env() else {
+        eprintln!("c18: WACV_REPO/WACV_VERIF/WACV_TARGET not set, feature variants skipped");
+        return Ok(None);
+    };
+    let ws = PathBuf::from(&env.target).join("c18x-ws");
+    let products: Vec<PathBuf> = VARIANTS.iter().map(|(w, i)| ws.join("target/debug").join(format!("c18x-w{}i{}", *w as u8, *i as u8))).collect();
+    let mut roots = small_util::repo_sources(&env, false);
+    for h in ["lib.rs", "c18_core.rs", "small_util.rs"] {
+        roots.push(PathBuf::from(&env.verif).join("harness/src").join(h));
+    }
+    let stamp = small_util::source_stamp(&roots, "c18x v2");
+    let (repo, verif, ws2) = (env.repo.clone(), env.verif.clone(), ws.clone());
+    small_util::ensure_built(&PathBuf::from(&env.target), "c18x-ws", &stamp, &products, move || {
+        small_util::write_if_changed(
+            &ws2.join("Cargo.toml"),
+            "[workspace]\nmembers = [\"c18x-w0i1\", \"c18x-w0i0\", \"c18x-w1i0\"]\nresolver = \"2\"\n\n[profile.dev]\nopt-level = 1\ndebug = 1\n",
+        );
+        for (w, i) in VARIANTS {
+            let n = format!("c18x-w{}i{}", w as u8, i as u8);
+            let m = ws2.join(&n);
+            let mut feats = Vec::new();
+            if i {
+                feats.push("\"wit\"");
+            }
+            if w {
+                feats.push("\"wat\"");
+            }
+            let toml = format!(
+                "[package]\nname = \"{n}\"\nversion = \"0.0.0\"\nedition = \"2021\"\npublish = false\n\n[dependencies]\n\
+                 wac-types = {{ path = \"{repo}/crates/wac-types\" }}\n\
+                 wac-resolver = {{ path = \"{repo}/crates/wac-resolver\", default-features = false, features = [{}] }}\n\
+                 wit-component = \"0.247.0\"\nwit-parser = \"0.247.0\"\nwat = \"1.245.1\"\nsemver = \"1.0.22\"\nindexmap = \"2.2.6\"\nmiette = \"7.2.0\"\n\n\
+                 [lints.rust]\nunexpected_cfgs = {{ level = \"allow\" }}\n",
+                feats.join(", ")
+            );
+            small_util::write_if_changed(&m.join("Cargo.toml"), &toml);
+            let main = format!(
+                "#![allow(dead_code)]\n#[path = \"{verif}/harness/src/lib.rs\"]\nmod api;\n#[path = \"{verif}/harness/src/c18_core.rs\"]\nmod c18_core;\nfn main() {{\n    c18_core::run(api::Args::parse());\n}}\n"
+            );
+            small_util::write_if_changed(&m.join("src/main.rs"), &main);
+        }
+        if !ws2.join("Cargo.lock").exists() {
+            fs::copy(PathBuf::from(&repo).join("Cargo.lock"), ws2.join("Cargo.lock")).map_err(|e| e.to_string())?;
+        }
+        // one package at a time: building them together would unify the features of wac-resolver
+        for (w, i) in VARIANTS {
+            let n = format!("c18x-w{}i{}", w as u8, i as u8);
+            small_util::cargo(&ws2, &ws2.join("target"), &["-p", &n], Some("--cfg wac_verif"))?;
+        }
+        Ok(())
+    })?;
+    Ok(Some(ws))
+}
+
+/// run the variant binary over the (sampled) single-shard enumeration and append its case lines
 fn run_variant(args: &Args, wat: bool, wit: bool) -> Result<(), String> {
     use std::io::Write;
-    let (Ok(repo), Ok(verif), Ok(target)) = (std::env::var("WACV_REPO"), std::env::var("WACV_VERIF"), std::env::var("WACV_TARGET")) else {
-        eprintln!("c18: WACV_REPO/WACV_VERIF/WACV_TARGET not set, feature variants skipped");
-        return Ok(());
-    };
-    let ws = PathBuf::from(&target).join("c18x-ws");
+    let Some(ws) = ensure_variants()? else { return Ok(()) };
     let name = format!("c18x-w{}i{}", wat as u8, wit as u8);
-    let member = ws.join(&name);
-    fs::create_dir_all(member.join("src")).map_err(|e| e.to_string())?;
-    let write_if_changed = |p: &Path, s: &str| {
-        if fs::read_to_string(p).ok().as_deref() != Some(s) {
-            fs::write(p, s).unwrap();
-        }
-    };
-    // the workspace lists all three members so that they share one lock file and one target dir
-    write_if_changed(
-        &ws.join("Cargo.toml"),
-        "[workspace]\nmembers = [\"c18x-w0i1\", \"c18x-w0i0\", \"c18x-w1i0\"]\nresolver = \"2\"\n\n[profile.dev]\nopt-level = 1\ndebug = 1\n",
-    );
-    for (w, i) in [(false, true), (false, false), (true, false)] {
-        let n = format!("c18x-w{}i{}", w as u8, i as u8);
-        let m = ws.join(&n);
-        fs::create_dir_all(m.join("src")).map_err(|e| e.to_string())?;
-        let mut feats = Vec::new();
-        if i {
-            feats.push("\"wit\"");
-        }
-        if w {
-            feats.push("\"wat\"");
-        }
-        let toml = format!(
-            "[package]\nname = \"{n}\"\nversion = \"0.0.0\"\nedition = \"2021\"\npublish = false\n\n[dependencies]\n\
-             wac-types = {{ path = \"{repo}/crates/wac-types\" }}\n\
-             wac-resolver = {{ path = \"{repo}/crates/wac-resolver\", default-features = false, features = [{}] }}\n\
-             wit-component = \"0.247.0\"\nwit-parser = \"0.247.0\"\nwat = \"1.245.1\"\nsemver = \"1.0.22\"\nindexmap = \"2.2.6\"\nmiette = \"7.2.0\"\n\n\
-             [lints.rust]\nunexpected_cfgs = {{ level = \"allow\" }}\n",
-            feats.join(", ")
-        );
-        write_if_changed(&m.join("Cargo.toml"), &toml);
-        let main = format!(
-            "#![allow(dead_code)]\n#[path = \"{verif}/harness/src/lib.rs\"]\nmod api;\n#[path = \"{verif}/harness/src/c18_core.rs\"]\nmod c18_core;\nfn main() {{\n    c18_core::run(api::Args::parse());\n}}\n"
-        );
-        write_if_changed(&m.join("src/main.rs"), &main);
-    }
-    if !ws.join("Cargo.lock").exists() {
-        fs::copy(PathBuf::from(&repo).join("Cargo.lock"), ws.join("Cargo.lock")).map_err(|e| e.to_string())?;
-    }
-    // cargo serialises concurrent builds in one target directory by itself
-    let st = std::process::Command::new("cargo")
-        .args(["build", "--offline", "--quiet", "-p", &name])
-        .current_dir(&ws)
-        .env("CARGO_TARGET_DIR", ws.join("target"))
-        .env("CARGO_NET_OFFLINE", "true")
-        .env("RUSTFLAGS", "--cfg wac_verif")
-        .output()
-        .map_err(|e| format!("cargo: {e}"))?;
-    if !st.status.success() {
-        return Err(format!("cargo build -p {name} failed:\n{}", String::from_utf8_lossy(&st.stderr)));
-    }
     let tmp = format!("{}.{}", args.out, name);
     let st = std::process::Command::new(ws.join("target/debug").join(&name))
         .args(["--tier", &args.tier, "--seed", &args.seed.to_string(), "--out", &tmp, "--shard", "0", "--nshards", "1", "--no-variants", "1"])
